@@ -117,11 +117,21 @@ func (w WLSpec) Build(wl *spg.WordList) (spg.WLRecipe, *spg.WordList, error) {
 		r = spg.NewWLRecipe(w.Len, wl)
 	}
 	r.Capitalize = spg.CapScheme(w.Cap)
+	r.SeparatorChar = FromCPs(w.SepChar) // also set next to a separator function, which must then win
 	switch w.Sep {
 	case "", "char":
-		r.SeparatorChar = FromCPs(w.SepChar)
 	case "recipe":
 		r.SeparatorFunc = spg.NewSFFunction(w.SepRecipe.Recipe())
+	case "custom0":
+		// a caller-written separator function: a fresh random string from SepRecipe each call, but it claims no entropy
+		cr := w.SepRecipe.Recipe()
+		r.SeparatorFunc = func() (string, spg.FloatE) {
+			p, err := cr.Generate()
+			if err != nil {
+				return "", 0
+			}
+			return p.String(), 0
+		}
 	default:
 		p, ok := presets[w.Sep]
 		if !ok {
